@@ -1112,3 +1112,26 @@ B('JK-early-return-after-index', ['C20'], 'container_util.py', 'arrays_from_inde
 N('JK-columns-first', ['C20'], 'container_util.py', 'arrays_from_index_frame',
   '    if columns is not None:\n        column_key = container.columns._loc_to_iloc(columns)\n        yield from container._blocks._slice_blocks(column_key=column_key)',
   '    if not columns is None:\n        yield from container._blocks._slice_blocks(column_key=container.columns._loc_to_iloc(columns))')
+
+# ---------------------------------------------------------------------------------- carried state of the block-walking fills (C14)
+B('CS-sided-skip-non-na-kind', ['C14'], 'type_blocks.py', 'TypeBlocks._fillna_sided_axis_1',
+  '            sel = isna_array(b) # True for is NaN\n            ndim = sel.ndim\n\n            if isna_exit_previous is None:',
+  '            if b.dtype.kind in \'iub\':\n                yield b\n                continue\n            sel = isna_array(b) # True for is NaN\n            ndim = sel.ndim\n\n            if isna_exit_previous is None:',
+  'I.na-carried-state', '_fillna_sided_axis_1')
+B('CS-directional-no-na-branch-keeps-count', ['C14'], 'type_blocks.py', 'TypeBlocks._fillna_directional_axis_1',
+  '                bridging_values = b\n                bridging_isna = sel\n                bridging_count = np.full(b.shape[0], 0)\n                yield b',
+  '                bridging_values = b\n                bridging_isna = sel\n                yield b', 'I.na-carried-state', '_fillna_directional_axis_1')
+N('CS-sided-skip-with-update', ['C14'], 'type_blocks.py', 'TypeBlocks._fillna_sided_axis_1',
+  '            sel = isna_array(b) # True for is NaN\n            ndim = sel.ndim\n\n            if isna_exit_previous is None:',
+  '            if b.dtype.kind in \'iub\':\n                isna_exit_previous = np.full(b.shape[0], False, dtype=bool)\n                yield b\n                continue\n            sel = isna_array(b) # True for is NaN\n            ndim = sel.ndim\n\n            if isna_exit_previous is None:')
+
+# ---------------------------------------------------------------------------------- group key fallback (C13)
+B('GK-fallback-joined-rows', ['C13'], 'util.py', 'array_to_groups_and_locations',
+  '        _, group_index, locations = np.unique(\n                array.astype(str),\n                return_index=True,\n                return_inverse=True,\n                axis=unique_axis)\n        # groups here',
+  "        array_str = array.astype(str)\n        if unique_axis == 0 and array_str.ndim == 2:\n            array_str = np.array([','.join(row) for row in array_str], dtype=str)\n            unique_axis = None\n        _, group_index, locations = np.unique(\n                array_str,\n                return_index=True,\n                return_inverse=True,\n                axis=unique_axis)\n        # groups here",
+  'I.group-key-fallback', 'array_to_groups_and_locations')
+B('GK-fallback-axis-dropped', ['C13'], 'util.py', 'array_to_groups_and_locations',
+  '                array.astype(str),\n                return_index=True,\n                return_inverse=True,\n                axis=unique_axis)\n        # groups here',
+  '                array.astype(str),\n                return_index=True,\n                return_inverse=True)\n        # groups here', 'I.group-key-fallback', 'array_to_groups_and_locations')
+N('GK-fallback-named-temp', ['C13'], 'util.py', 'array_to_groups_and_locations',
+  '        _, group_index, locations = np.unique(\n                array.astype(str),', '        as_text = array.astype(str)\n        _, group_index, locations = np.unique(\n                as_text,')
